@@ -32,7 +32,8 @@ Proof. exact format_action_total. Qed.
 Print Assumptions C16_format_action_total.
 Check C16_format_action_total : forall a, exists s, format_action a = Txt s.
 
-(* D15 repaired (fix c0929b8): the FK-chain walk keeps a visited set and ends on EVERY slice, cycles included *)
+(* D15 repaired (fix c0929b8): the FK-chain walk keeps the list of ALL visited nodes and ends on EVERY slice and from
+   EVERY start — arbitrary FK graphs: acyclic chains, cycles, tails leading into a cycle (rho shapes) *)
 Theorem C16_resolve_fk_terminates : forall s rt rcs, exists r, resolve_fk_target (resolve_fuel s) s rt rcs = Some r.
 Proof. exact resolve_fk_terminates. Qed.
 Print Assumptions C16_resolve_fk_terminates.
@@ -66,11 +67,12 @@ Definition C16_full_statement : Prop :=
   (forall a, exists s, display a = Txt s)
   /\ (forall s t, exists d, members s t = Ok d).
 
-(* non-vacuity: the former D3 and D15 witnesses now render *)
+(* non-vacuity: the former D3 and D15 witnesses now render; a rho shape (tail into a cycle) resolves to the cycle's node *)
 Example C16_nonvacuous :
   display d3_witness = Txt ("RawSql: " +++ string_of_list_ascii (repeat "x"%char 46) +++ "...")
   /\ all_ascii "SELECT 1" = true
   /\ resolve_fk_target (resolve_fuel [cyc_a; cyc_b]) [cyc_a; cyc_b] "b" ["y"] = Some ("b", ["y"])
   /\ resolve_fk_target (resolve_fuel [cyc_self]) [cyc_self] "a" ["x"] = Some ("a", ["x"])
+  /\ resolve_fk_target (resolve_fuel [rho_c; rho_d; cyc_self]) [rho_c; rho_d; cyc_self] "d" ["z"] = Some ("a", ["x"])
   /\ resolve_fk_target 3 [d14_user; d14_post] "user" ["id"] = Some ("user", ["id"]).
 Proof. repeat split; vm_compute; reflexivity. Qed.
